@@ -114,9 +114,42 @@ def make_case(pid, machine, src_text, inputs, settings, rng, tags):
     return C.Case(pid, machine, [src_text], [], dict(lines=lines, tags=tags, src=src_text, inputs=inputs, settings=settings))
 
 
+# documented-semantics probes: expectations computed from the documentation, NOT from the model (which follows the
+# code, casts included).  (machine, source, input bytes of x, expected final stack, signature if the code deviates)
+B8 = [1, 2, 3, 4, 5, 6, 7, 8]
+SPEC = [
+    ('forth64', '7 -2 /mod -7 2 /mod 7 2 / -7 2 mod', [], [-1, -4, 1, -4, 3, 1], None),
+    ('forth32', '2147483647 1+ 65536 65536 * -2147483648 1-', [], [-2147483648, 0, 2147483647], None),
+    ('forth64', '2147483647 1+ 65536 65536 *', [], [2147483648, 4294967296], None),
+    ('forth64', 'input x x i-> stack x !i-> stack', B8, [0x04030201, 0x05060708], None),
+    ('forth64', 'input x x h-> stack x B-> stack x !H-> stack', [255, 255, 200, 1, 2], [-1, 200, 258], None),
+    ('forth64', 'input x x varint-> stack x zigzag-> stack', [172, 2, 3], [300, -2], None),
+    ('forth64', 'input x x q-> stack', B8, [0x0807060504030201], 'forth-read-cast-int32'),
+    ('forth64', 'input x x !q-> stack', B8, [0x0102030405060708], 'forth-read-cast-int32'),
+    ('forth64', 'input x x Q-> stack', B8, [0x0807060504030201], 'forth-read-cast-int32'),
+    ('forth64', 'input x x n-> stack', B8, [0x0807060504030201], 'forth-read-cast-int32'),
+    ('forth64', 'input x x I-> stack', [255, 255, 255, 255], [4294967295], 'forth-read-cast-int32'),
+    ('forth64', 'input x 2 x #I-> stack', [255, 255, 255, 255, 0, 0, 0, 128], [4294967295, 2147483648], 'forth-read-cast-int32'),
+    ('forth64', '1 62 lshift dup 1+ mod', [], [2 ** 62], 'forth-mod-overflow'),
+    ('forth32', '1 30 lshift dup 1+ mod', [], [2 ** 30], 'forth-mod-overflow'),
+    ('forth64', '1 40 lshift dup 2 + swap do i loop', [], [2 ** 40, 2 ** 40 + 1], 'forth-loop-index-cast-int32'),
+    ('forth64', '4294967296 -4294967297', [], [4294967296, -4294967297], 'forth-literal-cast-int32'),
+]
+
+
+def spec_cases():
+    out = []
+    for i, (machine, src, bs, stack, sig) in enumerate(SPEC):
+        pid = 's%d' % i
+        ln = sx_line(pid + '.A', machine, src.encode('latin-1'), [('x', bs)], (1024, 1024, 1024, 15), ['run', '(finish 50)'])
+        out.append(C.Case(pid, machine, [src], [], dict(lines={'A': ln}, tags=dict(cls='spec'), src=src, expect_stack=stack,
+                                                         sig=sig)))
+    return out
+
+
 def cases(rng, tier):
     n = 330 if tier == 'quick' else 9000
-    out = []
+    out = spec_cases()
     for i in range(n):
         pid = 'p%d' % i
         machine = rng.choice(['forth64', 'forth32'])
@@ -270,6 +303,55 @@ def features(src):
     return dict(do='do' in toks, exit='exit' in toks)
 
 
+def with_src(line, src_text):
+    return re.sub(r'\(src[^)]*\)', '(src %s)' % ' '.join(str(b) for b in src_text.encode('latin-1')), line, 1)
+
+
+def minimise(lines, src_text, still_fails, budget=60):
+    """token-level delta debugging of the program text; lines: the session lines of the finding (same program).
+    still_fails(list of lines) -> bool re-runs implementation and model."""
+    toks = src_text.split(' ')
+    n = 2
+    while len(toks) >= 2 and budget > 0:
+        chunk = max(1, len(toks) // n)
+        reduced = False
+        for i in range(0, len(toks), chunk):
+            cand = toks[:i] + toks[i + chunk:]
+            if not cand:
+                continue
+            budget -= 1
+            text = ' '.join(cand)
+            if still_fails([with_src(l, text) for l in lines]):
+                toks, n, reduced = cand, max(n - 1, 2), True
+                break
+            if budget <= 0:
+                break
+        if not reduced:
+            if chunk == 1:
+                break
+            n = min(len(toks), n * 2)
+    return ' '.join(toks)
+
+
+def fails_modeldiff(lines):
+    m = run_model(lines, workers=1)
+    i, _ = C.run_driver(lines, drv='forthdrv', per_case_timeout=5.0)
+    for l in lines:
+        sid = C.LINE_ID.match(l).group(1)
+        mr, ir = m.get(sid, ''), i.get(sid, '')
+        if mr.startswith(('unsupported', 'fuel', 'fault')) or ir.startswith('bad') or not mr:
+            continue
+        if ir.startswith(('crash', 'timeout')) or canon_impl(ir) != mr:
+            return True
+    return False
+
+
+def fails_stepdiff(lines):
+    i, _ = C.run_driver(lines, drv='forthdrv', per_case_timeout=5.0)
+    obs = [observable(canon_impl(i.get(C.LINE_ID.match(l).group(1), ''))) for l in lines]
+    return len(lines) >= 2 and all(o.startswith('ok') for o in obs) and obs[0] != obs[1]
+
+
 UB_SIG = {2: 'forth-ub-negative-count', 3: 'forth-ub-negative-rewind', 4: 'forth-ub-div-trap',
           5: 'forth-ub-exit-in-do', 6: 'forth-ub-exit-in-do', 7: 'forth-ub-call-at-depth-limit',
           8: 'forth-ub-recursion-max-0', 9: 'forth-ub-nbit-over-31', 1: 'forth-ub-internal'}
@@ -280,7 +362,8 @@ def signature(c, impl, verdict):
 
 
 def run(cases, tier, rng):
-    cases = corpus_cases() + list(cases)
+    replaying = any(c.meta.get('tags', {}).get('cls') == 'replay' for c in cases)
+    cases = ([] if replaying else corpus_cases()) + list(cases)
     san = tier == 'thorough'
     lines, owner = [], {}
     for c in cases:
@@ -304,7 +387,8 @@ def run(cases, tier, rng):
     findings, verd, dist, samples = [], {}, {}, []
     distinct = set()
     corr = {'corr:forth-session': True, 'corr:forth-compile-errors': True, 'prop:step-independence': True,
-            'prop:growth-independence': True, 'prop:decompiled-equivalent': True, 'prop:no-crash': True}
+            'prop:growth-independence': True, 'prop:decompiled-equivalent': True, 'prop:no-crash': True,
+            'prop:documented-semantics': True}
 
     def add(kind, what, clines, sig=None, no_input=False, ob=None):
         findings.append(dict(kind=kind, what=what, case_lines=clines, signature=sig, no_input=no_input,
@@ -356,6 +440,16 @@ def run(cases, tier, rng):
                 count('crash')
                 continue
             ci = canon_impl(ires)
+            if k == 'A' and 'expect_stack' in c.meta:
+                want = '(stack%s)' % ''.join(' %d' % v for v in c.meta['expect_stack'])
+                got = re.search(r'\(stack[^)]*\)', ci)
+                if got and got.group(0) == want:
+                    count('spec-agree')
+                else:
+                    add('viol', 'documented semantics: %s "%s" must leave %s, the implementation leaves %s (%s)'
+                        % (c.op, c.meta['src'], want, got.group(0) if got else ci[:80], c.meta.get('sig')),
+                        [ln, '# expected ' + want, '# impl: ' + ci[:600]], sig=c.meta.get('sig'), ob='prop:documented-semantics')
+                    count('spec-viol')
             if ci == mres:
                 count('agree')
                 obs[k] = observable(ci)
@@ -418,6 +512,23 @@ def run(cases, tier, rng):
                 count('decompile-diff')
             else:
                 count('decompile-agree')
+    # minimise what is not a known kind of defect (token-level delta debugging, bounded)
+    nmin = 0
+    for f in sorted(findings, key=lambda f: f['size']):
+        if f['signature'] is not None or f['kind'] == 'bad' or nmin >= 3:
+            continue
+        sess = [l for l in f['case_lines'] if l.startswith('(') and parse_line(l)]
+        if not sess:
+            continue
+        src_text = parse_line(sess[0])['src'].decode('latin-1')
+        pred = fails_stepdiff if 'single-stepping' in f['what'] else fails_modeldiff if f['kind'] in ('modeldiff', 'crash') else None
+        if pred is None or not pred(sess):
+            continue
+        nmin += 1
+        small = minimise(sess, src_text, pred)
+        f['case_lines'] = [with_src(l, small) for l in sess] + ['# minimised from: ' + ' '.join(src_text.split())[:600]] + \
+            [l for l in f['case_lines'] if l.startswith('#')]
+        f['size'] = sum(len(x) for x in f['case_lines'][:len(sess)])
     # keep the smallest representative per (kind, signature / obligation)
     best = {}
     for f in findings:
